@@ -4,7 +4,8 @@ The compiled methods are proved equal to the model's (proofs/IndexGenP.v); what 
 dicts as insertion-ordered association lists, `d[k] = v` replacing in place or appending, the value semantics of lists - is what CPython does.
 Here random sequences of calls (build, insert, remove + update, _reset, invalidate) are run on the REAL `tinyflux.index.Index` object, and the same
 sequence on the compiled functions inside Coq (vm_compute); after every call the seven attributes are compared - the nested tag map with the order
-of its keys, the postings, the time arrays (float stamps turned back into microseconds), the counters.  Only run when the translation was not
+of its keys, the postings, the time arrays (float stamps turned back into microseconds), the counters - and the answers of the compiled getters
+(__len__, valid, get_measurements, get_timestamps, get_field_values for several measurement arguments) with those of the real ones.  Only run when the translation was not
 refused (a refused translation is a snapshot of an older source).  This compares INTERNAL state on purpose: it is a test of the translator, not of
 the property; a difference is reported as a broken correspondence without a failing input."""
 import random
@@ -37,9 +38,20 @@ Definition istep (g : pyindex) (o : iop) : pyindex :=
   | IReset => IndexGen.gen__reset g
   | IInvalidate => IndexGen.gen_invalidate g
   end.
-(* after every call the compiled object must be the observed one; the number of the first call where it is not (0 = all agree) *)
-Fixpoint walk (g : pyindex) (k : nat) (l : list (iop * pyindex)) : nat :=
-  match l with [] => 0 | (o, want) :: r => let g' := istep g o in if pyindex_eqb g' want then walk g' (S k) r else S k end.
+(* what the compiled getters answer on the compiled object, for the measurement arguments None, "m1", "m2", "" and the field keys "a", "v" *)
+Definition m1 : str := [109; 49]%N.
+Definition m2 : str := [109; 50]%N.
+Definition answers (g : pyindex) : nat * bool * list str * list (list Z) * list (list (option num)) :=
+  (IndexGen.gen___len__ g, IndexGen.gen_valid g, sort_dedup (IndexGen.gen_get_measurements g),
+   map (IndexGen.gen_get_timestamps g) [None; Some m1; Some m2; Some []],
+   flat_map (fun k => map (IndexGen.gen_get_field_values g k) [None; Some m1; Some []]) [[97]%N; [118]%N]).
+Definition answers_eqb (a b : nat * bool * list str * list (list Z) * list (list (option num))) : bool :=
+  let '(n1, v1, ms1, ts1, fv1) := a in let '(n2, v2, ms2, ts2, fv2) := b in
+  Nat.eqb n1 n2 && Bool.eqb v1 v2 && leqb str_eqb ms1 ms2 && leqb (leqb Z.eqb) ts1 ts2 && leqb (leqb onum_eqb) fv1 fv2.
+(* after every call the compiled object must be the observed one, and the compiled getters must answer what the real getters answered;
+   the number of the first call where they do not (0 = all agree) *)
+Fixpoint walk (g : pyindex) (k : nat) (l : list (iop * pyindex * (nat * bool * list str * list (list Z) * list (list (option num))))) : nat :=
+  match l with [] => 0 | (o, want, ans) :: r => let g' := istep g o in if pyindex_eqb g' want && answers_eqb (answers g') ans then walk g' (S k) r else S k end.
 Definition start (v : bool) : pyindex := IndexGen.gen___init__ py_blank v.
 """
 
@@ -59,6 +71,18 @@ def _snapshot(ix):
     return {"n": ix._num_items, "tags": [(k, [(v, list(b)) for v, b in inner.items()]) for k, inner in ix._tags.items()],
             "fields": [(k, [(i, x) for i, x in b]) for k, b in ix._fields.items()], "meas": [(k, list(b)) for k, b in ix._measurements.items()],
             "ts": [us(t) for t in ix._timestamps], "valid": bool(ix._valid), "pos": list(ix._storage_pos_sorted_by_ts)}
+
+
+def _answers(ix):
+    us = lambda ts: round(ts * 1000000)
+    return {"len": len(ix), "valid": bool(ix.valid), "meas": sorted(ix.get_measurements()),
+            "ts": [[us(t) for t in ix.get_timestamps(m)] for m in (None, "m1", "m2", "")],
+            "fv": [list(ix.get_field_values(k, m)) for k in ("a", "v") for m in (None, "m1", "")]}
+
+
+def _cans(a):
+    return (f"({a['len']}, {M.cbool(a['valid'])}, {M.clist(a['meas'], M.cstr)}, {M.clist(a['ts'], lambda l: M.clist(l, M.cz))}, "
+            f"{M.clist(a['fv'], lambda l: M.clist(l, lambda x: M.copt(x, M.cnum)))})")
 
 
 def _csnap(s):
@@ -114,7 +138,7 @@ def sequences(tf, seed, n):
                 ix.invalidate()
                 pts = []
                 op = "IInvalidate"
-            steps.append((op, _snapshot(ix)))
+            steps.append((op, _snapshot(ix), _answers(ix)))
             readable.append(op[:60])
         out.append((valid0, steps, readable))
     return out
@@ -129,7 +153,7 @@ def check(ck, tf, refused, n=None):
     seqs = sequences(tf, ck.seed, n)
     f = ck.work / "cases_indexgen.v"
     lines = [HEADER, "Definition results : list nat := ["]
-    lines.append(";\n".join(f"walk (start {M.cbool(v)}) 0 [" + "; ".join(f"({op}, {_csnap(s)})" for op, s in steps) + "]" for v, steps, _ in seqs))
+    lines.append(";\n".join(f"walk (start {M.cbool(v)}) 0 [" + "; ".join(f"({op}, {_csnap(s)}, {_cans(a)})" for op, s, a in steps) + "]" for v, steps, _ in seqs))
     lines.append("].\nEval vm_compute in results.")
     f.write_text("\n".join(lines) + "\n")
     rc, out = coqc_file(f, timeout=900)
@@ -144,6 +168,7 @@ def check(ck, tf, refused, n=None):
     if bad:
         i, x = bad[0]
         ck.violation({"kind": "correspondence-broken", "what_no_longer_checks": "the compiled index maintenance (gen/IndexGen.v, harness/py2coq_index.py over IndexSem.v) against the real "
-                      "tinyflux.index.Index object: attributes after call number " + str(x) + " differ", "calls": seqs[i][2], "initially_valid": seqs[i][0],
-                      "attributes_of_the_real_object_after_that_call": {k: str(v)[:300] for k, v in seqs[i][1][x - 1][1].items()}}, no_input=True)
+                      "tinyflux.index.Index object: attributes or getter answers after call number " + str(x) + " differ", "calls": seqs[i][2], "initially_valid": seqs[i][0],
+                      "attributes_of_the_real_object_after_that_call": {k: str(v)[:300] for k, v in seqs[i][1][x - 1][1].items()},
+                      "answers_of_the_real_getters_after_that_call": {k: str(v)[:300] for k, v in seqs[i][1][x - 1][2].items()}}, no_input=True)
     return stats
